@@ -6,5 +6,6 @@ import PyIkev2.Props.C11
 #print axioms PyIkev2.Props.C11.c11_first_acceptable
 #print axioms PyIkev2.Props.C11.c11_response_drawn_from_offer
 #print axioms PyIkev2.Props.C11.c11_child_response_drawn_from_offer
+#print axioms PyIkev2.Props.C11.c11_response_covers_offered_types
 #print axioms PyIkev2.Props.C11.c11_invalid_ke_names_chosen
 #print axioms PyIkev2.Props.C11.c11_retry_only_within_offer
